@@ -1,14 +1,11 @@
-use crate::forwarder::TcpConnector;
 use crate::http_codec::HttpCodec;
-use crate::net_utils::TcpDestination;
 use crate::pipe::DuplexPipe;
 use crate::tcp_forwarder::TcpForwarder;
 use crate::tls_demultiplexer::Protocol;
-use crate::{core, forwarder, http1_codec, http_codec, log_id, log_utils, pipe, tunnel};
+use crate::{core, http1_codec, http_codec, log_id, log_utils, pipe, tunnel};
 use bytes::{BufMut, BytesMut};
 use std::io;
 use std::io::ErrorKind;
-use std::net::Ipv4Addr;
 use std::sync::atomic::{AtomicUsize, Ordering};
 use std::sync::Arc;
 
@@ -104,25 +101,18 @@ async fn handle_stream(
     context: Arc<core::Context>,
     stream: Box<dyn http_codec::Stream>,
     protocol: Protocol,
-    sni: String,
+    _sni: String,
     log_id: &log_utils::IdChain<u64>,
 ) -> io::Result<()> {
     let (request, respond) = stream.split();
     log_id!(trace, log_id, "Received request: {:?}", request.request());
 
-    let forwarder = Box::new(TcpForwarder::new(context.clone()));
+    // the origin is configured by the operator: the policy for destinations chosen by clients
+    // does not apply to it
+    let forwarder = TcpForwarder::new(context.clone());
     let settings = context.settings.reverse_proxy.as_ref().unwrap();
     let (mut server_source, mut server_sink) = forwarder
-        .connect(
-            log_id.clone(),
-            forwarder::TcpConnectionMeta {
-                client_address: Ipv4Addr::UNSPECIFIED.into(),
-                destination: TcpDestination::Address(settings.server_address),
-                auth: None,
-                tls_domain: sni,
-                user_agent: None,
-            },
-        )
+        .connect_to_peer(log_id.clone(), settings.server_address)
         .await
         .map_err(|e| match e {
             tunnel::ConnectionError::Io(e) => e,
